@@ -50,7 +50,7 @@ def ENCODED():
 def cases(tier, seed):
     ns = [2, 3, 4] if tier == "thorough" else [2, 3]
     groups = ["core"] + list(RATIOS) + ["r_squared_adj"]
-    out = [f"baseline/{n}/{g}" for n in ns for g in groups] + [f"reporting/{n}" for n in ns[:2]] + ["safe_divide/0", "daily_error/3"]
+    out = [f"baseline/{n}/{g}" for n in ns for g in groups] + [f"reporting/{n}" for n in ns[:2]] + ["safe_divide/0", "daily_error/3", "gate/0"]
     return out
 
 
@@ -282,7 +282,45 @@ def replay_daily_error(inp):
     return bool(bad), f"RMSE {R} MAE {M} CVRMSE {CV} PNRMSE {PN} for resid={resid}, obs={obs}"
 
 
-REPLAY = {"baseline": replay_baseline, "safe_divide": replay_safe_divide, "reporting": replay_reporting, "daily_error": replay_daily_error}
+def gate_run(vals):
+    import types as _t
+    import opendsm.eemeter.models.hourly.model as hm
+    m = object.__new__(hm.HourlyModel)
+    m.baseline_metrics = _t.SimpleNamespace(cvrmse=vals["cvrmse"], cvrmse_adj=vals["cvrmse_adj"], pnrmse=vals["pnrmse"], pnrmse_adj=vals["pnrmse_adj"])
+    m.settings = _t.SimpleNamespace(cvrmse_threshold=vals["thr_c"], pnrmse_threshold=vals["thr_p"])
+    return bool(m._model_fit_is_acceptable())
+
+
+def replay_gate(inp):
+    v = {k: (None if k in inp.get("nones", []) else float(inp["env"][k])) for k in ("cvrmse", "cvrmse_adj", "pnrmse", "pnrmse_adj", "thr_c", "thr_p")}
+    ok = gate_run(v)
+    want = (v["cvrmse_adj"] is not None and v["cvrmse_adj"] < v["thr_c"]) or (v["pnrmse_adj"] is not None and v["pnrmse_adj"] < v["thr_p"])
+    return ok != want, f"_model_fit_is_acceptable={ok} for {v}; a model is acceptable iff cvrmse_adj < threshold or pnrmse_adj < threshold"
+
+
+def run_gate(case):
+    names = ["cvrmse", "cvrmse_adj", "pnrmse", "pnrmse_adj", "thr_c", "thr_p"]
+    case.inputs = [z3.Real(n) for n in names]
+
+    def run():
+        nones = [k for k in ("cvrmse_adj", "pnrmse_adj") if F.choose(f"{k}_none", [False, True])]
+        v = {k: (None if k in nones else real(k)) for k in names}
+        return nones, gate_run(v)
+
+    paths = case.explore(run)
+    for p in paths:
+        if p.outcome != "ret":
+            case.prove(p, False, "hourly fit gate does not raise", replay=("gate", lambda mdl: dict(nones=[], env=model_env(mdl, case.inputs))))
+            continue
+        nones, ok = p.value
+        rp = ("gate", (lambda n: lambda mdl: dict(nones=n, env=model_env(mdl, case.inputs)))(nones))
+        a = z3.BoolVal(False) if "cvrmse_adj" in nones else z3.Real("cvrmse_adj") < z3.Real("thr_c")
+        b = z3.BoolVal(False) if "pnrmse_adj" in nones else z3.Real("pnrmse_adj") < z3.Real("thr_p")
+        case.prove(p, z3.BoolVal(ok) == z3.Or(a, b), "hourly poor fit <=> misses both the adjusted CVRMSE and the adjusted PNRMSE threshold (undefined never passes)", replay=rp)
+    case.sample(dict(check="HourlyModel._model_fit_is_acceptable", paths=len(paths)))
+
+
+REPLAY = {"gate": replay_gate, "baseline": replay_baseline, "safe_divide": replay_safe_divide, "reporting": replay_reporting, "daily_error": replay_daily_error}
 
 
 def daily_error(resid, obs, wsse):
@@ -305,6 +343,8 @@ def run_case(case: Case, name: str):
         return run_reporting(case, n)
     if kind == "safe_divide":
         return run_safe_divide(case)
+    if kind == "gate":
+        return run_gate(case)
     return run_daily_error(case, n)
 
 
